@@ -14,14 +14,31 @@ variable {α : Type}
 @[simp] theorem Tail.read_clean : (Tail.clean : Tail α).read = [] := rfl
 
 @[simp, grind =] theorem Variant.buffered_direct : Variant.direct.buffered = false := rfl
+@[simp, grind =] theorem Variant.buffered_directOld : Variant.directOld.buffered = false := rfl
 @[simp, grind =] theorem Variant.buffered_flushAfter (c : Option Nat) : (Variant.flushAfter c).buffered = true := rfl
 @[simp, grind =] theorem Variant.buffered_flushBefore (c : Option Nat) : (Variant.flushBefore c).buffered = true := rfl
 @[simp, grind =] theorem Variant.safe_direct : Variant.direct.safe = true := rfl
+@[simp, grind =] theorem Variant.safe_directOld : Variant.directOld.safe = true := rfl
 @[simp, grind =] theorem Variant.safe_flushAfter (c : Option Nat) : (Variant.flushAfter c).safe = false := rfl
 @[simp, grind =] theorem Variant.safe_flushBefore (c : Option Nat) : (Variant.flushBefore c).safe = true := rfl
 
-theorem Variant.buffered_eq_false {v : Variant} : v.buffered = false ↔ v = .direct := by
+@[simp, grind =] theorem Variant.statusFirst_direct : Variant.direct.statusFirst = true := rfl
+@[simp, grind =] theorem Variant.statusFirst_directOld : Variant.directOld.statusFirst = false := rfl
+@[simp, grind =] theorem Variant.statusFirst_flushAfter (c : Option Nat) :
+    (Variant.flushAfter c).statusFirst = true := rfl
+@[simp, grind =] theorem Variant.statusFirst_flushBefore (c : Option Nat) :
+    (Variant.flushBefore c).statusFirst = true := rfl
+
+theorem Variant.buffered_eq_false {v : Variant} : v.buffered = false ↔ v = .direct ∨ v = .directOld := by
   cases v <;> simp [Variant.buffered]
+
+/-- an unbuffered writer is safe for the rows -/
+theorem Variant.safe_of_unbuffered {v : Variant} (h : v.buffered = false) : v.safe = true := by
+  cases v <;> simp_all
+
+theorem Variant.full_of_unbuffered {v : Variant} (h : v.buffered = false) (n : Nat) :
+    v.full n = false := by
+  cases v <;> simp_all [Variant.full, Variant.cap?]
 
 /-! ### the invariant -/
 
@@ -51,21 +68,23 @@ def PcFacts (v : Variant) (s : St α) : Prop :=
   | .start => s.state = .queued ∧ s.count = 0 ∧ s.file = [] ∧ s.tail = .clean ∧ s.buffer = [] ∧
       s.statusFile = none
   | .fetch => s.state = .running ∧ s.statusFile = none ∧ s.count = s.flushed.length ∧ Quiet v s
-  | .newline r => v = .direct ∧ s.state = .running ∧ s.statusFile = none ∧ s.tail = .noNl r ∧
+  | .newline r => v.buffered = false ∧ s.state = .running ∧ s.statusFile = none ∧ s.tail = .noNl r ∧
       s.buffer = [] ∧ s.count = s.file.length
   | .addCount => s.state = .running ∧ s.statusFile = none ∧ s.count + 1 = s.flushed.length ∧
       Quiet v s
   | .flushPre => (∃ c, v = .flushBefore c) ∧ s.state = .running ∧ s.statusFile = none ∧
       s.count = s.flushed.length ∧ s.todo = [] ∧ Quiet v s
   | .create => s.state = .running ∧ s.statusFile = none ∧ Late v s
-  | .setComplete => s.state = .running ∧ s.statusFile = some none ∧ Late v s
-  | .writeStatus => s.state = .complete ∧ s.statusFile = some none ∧ Late v s
+  | .setComplete => s.state = .running ∧ Late v s ∧
+      s.statusFile = (if v.statusFirst = true then some (some (.complete, s.count)) else some none)
+  | .writeStatus => s.statusFile = some none ∧ Late v s ∧
+      s.state = (if v.statusFirst = true then .running else .complete)
   | .flushPost => (∃ c, v = .flushAfter c) ∧ s.todo = [] ∧ s.count = s.flushed.length ∧
       Quiet v s ∧ Ended s
   | .close => Final s
   | .done => Final s
   | .dead => (s.present = true → s.statusFile = some (some (s.state, s.count))) ∧
-      (s.present = false → s.state = .queued ∧ s.count = 0)
+      (s.present = false → s.state = .queued ∧ s.count = 0 ∧ ∀ x, s.statusFile ≠ some (some x))
 
 structure Inv (v : Variant) (input : List α) (s : St α) : Prop where
   /-- while the goroutine lives, no row is lost: file, owed remainder, buffer, undelivered rows -/
@@ -101,8 +120,9 @@ set_option linter.unusedSimpArgs false
 /-- closes the four obligations of `Inv.mk_live` for a concrete successor state -/
 local macro "spool_auto" : tactic =>
   `(tactic| (apply Inv.mk_live <;>
-      (simp_all [PcFacts, St.flushed, St.flush, Quiet, Late, Final, Ended, Variant.buffered_eq_false,
-        Variant.epilogue, Variant.afterLoop] <;> try omega)))
+      (simp_all [PcFacts, St.flushed, St.flush, Quiet, Late, Final, Ended,
+        Variant.epilogue, Variant.afterLoop, Variant.afterCreate, Variant.afterWriteStatus,
+        Variant.afterSetComplete, Variant.writtenState] <;> try omega)))
 
 theorem Inv.spool {v : Variant} {input : List α} {s s' : St α} (h : Inv v input s)
     (hs : spoolStep v s = some s') : Inv v input s' := by
@@ -134,9 +154,9 @@ theorem Inv.spool {v : Variant} {input : List α} {s s' : St α} (h : Inv v inpu
   · -- flushPre
     cases hs; spool_auto
   · -- create
-    cases hs; spool_auto
+    cases hs; cases v <;> spool_auto
   · -- setComplete
-    cases hs; spool_auto
+    cases hs; cases v <;> spool_auto
   · -- writeStatus
     cases hs; cases v <;> spool_auto
   · -- flushPost
@@ -189,8 +209,10 @@ theorem Inv.restart {v : Variant} {input : List α} {s : St α} (h : Inv v input
   · rename_i st n hsf
     refine ⟨fun h => absurd rfl h, hp, ?_, hd⟩
     simp [PcFacts, hsf]
-  · refine ⟨fun h => absurd rfl h, hp, ?_, hd⟩
-    simp [PcFacts]
+  · rename_i hno
+    refine ⟨fun h => absurd rfl h, hp, ?_, hd⟩
+    simp only [PcFacts, Bool.false_eq_true, false_implies, true_and, forall_const]
+    exact fun x hx => hno x.1 x.2 hx
 
 theorem Inv.step {v : Variant} {input : List α} {s s' : St α} {o : Obs α} (l : Label)
     (h : Inv v input s) (hs : step v l s = some (s', o)) : Inv v input s' := by
@@ -224,7 +246,7 @@ theorem Inv.complete_all {v : Variant} {input : List α} {s : St α} (h : Inv v 
     simp only [PcFacts, Late, Final, Ended] at hf
     try simp only [ne_eq, reduceCtorEq, not_false_eq_true, forall_const] at hl
   case writeStatus =>
-    obtain ⟨_, _, hcnt, rfl, _, hs⟩ := hf
+    obtain ⟨_, ⟨hcnt, rfl, _, hs⟩, _⟩ := hf
     obtain ⟨rfl, rfl⟩ := hs hv
     simp [St.flushed] at hl hcnt
     simp [hl, hcnt]
@@ -246,13 +268,140 @@ theorem Inv.complete_all {v : Variant} {input : List α} {s : St α} (h : Inv v 
       obtain ⟨_, rfl, hfile⟩ := hd _ _ hsf
       obtain ⟨rfl, rfl⟩ := hfile hv
       simp
-  all_goals simp_all
+  all_goals exact absurd hf (by simp)
+
+/-- The repaired order (status file before the state change; ANY buffering): an in-memory
+    COMPLETE means the status file is already written, and says COMPLETE with the full count. -/
+theorem Inv.complete_status {v : Variant} {input : List α} {s : St α} (h : Inv v input s)
+    (hv : v.statusFirst = true) (hc : s.state = .complete) :
+    s.present = true ∧ s.count = input.length ∧
+    s.statusFile = some (some (.complete, input.length)) := by
+  obtain ⟨hl, hp, hf, hd⟩ := h
+  obtain ⟨todo, file, tail, buffer, present, state, count, statusFile, pc⟩ := s
+  dsimp only at hc hl hp hf hd ⊢
+  subst hc
+  cases pc
+  all_goals
+    simp only [PcFacts, Late, Final, Ended, hv, if_true] at hf
+    try simp only [ne_eq, reduceCtorEq, not_false_eq_true, forall_const] at hl
+  case flushPost =>
+    obtain ⟨_, rfl, hcnt, _, he⟩ := hf
+    have hlen := congrArg List.length hl.2
+    simp only [List.append_nil] at hlen
+    have hn : count = input.length := by omega
+    subst hn
+    refine ⟨hl.1, rfl, ?_⟩
+    simpa using he
+  case close =>
+    obtain ⟨rfl, rfl, rfl, hcnt, he⟩ := hf
+    have hlen := congrArg List.length hl.2
+    simp only [St.flushed, Tail.pending_clean, List.append_nil] at hlen
+    have hn : count = input.length := by omega
+    subst hn
+    refine ⟨hl.1, rfl, ?_⟩
+    simpa using he
+  case done =>
+    obtain ⟨rfl, rfl, rfl, hcnt, he⟩ := hf
+    have hlen := congrArg List.length hl.2
+    simp only [St.flushed, Tail.pending_clean, List.append_nil] at hlen
+    have hn : count = input.length := by omega
+    subst hn
+    refine ⟨hl.1, rfl, ?_⟩
+    simpa using he
+  case dead =>
+    cases present
+    · simp at hf
+    · have hsf := hf.1 rfl
+      obtain ⟨_, rfl, _⟩ := hd _ _ hsf
+      exact ⟨rfl, rfl, hsf⟩
+  all_goals exact absurd hf (by simp)
+
+/-- A written status file is never touched again: `os.Create` and `statusFile.Write` each run
+    once, before it is written. -/
+theorem Inv.status_stable {v : Variant} {input : List α} {s s' : St α} {o : Obs α} {l : Label}
+    {x : JobState × Nat} (h : Inv v input s) (hx : s.statusFile = some (some x))
+    (hs : Spool.step v l s = some (s', o)) : s'.statusFile = some (some x) := by
+  have hf := h.pcf
+  obtain ⟨todo, file, tail, buffer, present, state, count, statusFile, pc⟩ := s
+  dsimp only at hx hf
+  subst hx
+  cases l <;> simp only [Spool.step, Option.map_eq_some_iff, Prod.mk.injEq, Option.some.injEq] at hs
+  · obtain ⟨a, ha, rfl, _⟩ := hs
+    unfold spoolStep at ha
+    dsimp only at ha
+    split at ha
+    case h_2 =>
+      split at ha
+      · cases ha; rfl
+      · split at ha
+        · cases ha
+          unfold bufWrite
+          split <;> rfl
+        · cases ha; rfl
+    all_goals first
+      | (cases ha; done)
+      | (exfalso; simp [PcFacts] at hf; done)
+      | (cases ha; rfl)
+  · obtain ⟨a, ha, rfl, _⟩ := hs
+    unfold cutStep at ha
+    dsimp only at ha
+    split at ha
+    · split at ha
+      · cases ha; rfl
+      · cases ha
+    · cases ha
+  · obtain ⟨a, ha, rfl, _⟩ := hs
+    unfold failStep at ha
+    dsimp only at ha
+    split at ha
+    · cases ha; rfl
+    · cases ha
+  · obtain ⟨rfl, _⟩ := hs; rfl
+  · obtain ⟨rfl, _⟩ := hs; rfl
+  · obtain ⟨rfl, _⟩ := hs
+    simp [Spool.restart]
+
+/-- The repaired order: COMPLETE is final — no step of the goroutine, no reader and no restart
+    takes it back. -/
+theorem Inv.complete_stable {v : Variant} {input : List α} {s s' : St α} {o : Obs α} {l : Label}
+    (h : Inv v input s) (hv : v.statusFirst = true) (hc : s.state = .complete)
+    (hs : Spool.step v l s = some (s', o)) : s'.state = .complete := by
+  have hsf := (h.complete_status hv hc).2.2
+  have hf := h.pcf
+  obtain ⟨todo, file, tail, buffer, present, state, count, statusFile, pc⟩ := s
+  dsimp only at hc hsf hf
+  subst hc hsf
+  cases l <;> simp only [Spool.step, Option.map_eq_some_iff, Prod.mk.injEq, Option.some.injEq] at hs
+  · obtain ⟨a, ha, rfl, _⟩ := hs
+    unfold spoolStep at ha
+    dsimp only at ha
+    split at ha
+    all_goals first
+      | (cases ha; done)
+      | (exfalso; simp [PcFacts, hv] at hf; done)
+      | (cases ha; rfl)
+  · obtain ⟨a, ha, rfl, _⟩ := hs
+    unfold cutStep at ha
+    dsimp only at ha
+    split at ha
+    · exact absurd hf (by simp [PcFacts])
+    · cases ha
+  · obtain ⟨a, ha, rfl, _⟩ := hs
+    unfold failStep at ha
+    dsimp only at ha
+    split at ha
+    · exact absurd hf (by simp [PcFacts])
+    · cases ha
+  · obtain ⟨rfl, _⟩ := hs; rfl
+  · obtain ⟨rfl, _⟩ := hs; rfl
+  · obtain ⟨rfl, _⟩ := hs
+    simp [Spool.restart]
 
 /-- Nothing is buffered and no row is cut. -/
 def Unbuf (s : St α) : Prop := s.buffer = [] ∧ ∀ r, s.tail ≠ .cut r
 
-theorem Unbuf.step {s s' : St α} {o : Obs α} (l : Label) (h : Unbuf s)
-    (hs : step .direct l s = some (s', o)) : Unbuf s' := by
+theorem Unbuf.step {v : Variant} {s s' : St α} {o : Obs α} (l : Label) (hv : v.buffered = false)
+    (h : Unbuf s) (hs : step v l s = some (s', o)) : Unbuf s' := by
   obtain ⟨todo, file, tail, buffer, present, state, count, statusFile, pc⟩ := s
   obtain ⟨hb, ht⟩ := h
   dsimp only at hb ht
@@ -264,7 +413,7 @@ theorem Unbuf.step {s s' : St α} {o : Obs α} (l : Label) (h : Unbuf s)
     case h_2 =>
       split at ha
       · cases ha; exact ⟨hb, ht⟩
-      · simp only [Variant.buffered_direct, Bool.false_eq_true, if_false] at ha
+      · simp only [hv, Bool.false_eq_true, if_false] at ha
         cases ha; exact ⟨hb, by simp⟩
     all_goals first
       | cases ha; done
@@ -275,7 +424,7 @@ theorem Unbuf.step {s s' : St α} {o : Obs α} (l : Label) (h : Unbuf s)
     unfold cutStep at ha
     dsimp only at ha
     split at ha
-    · simp at ha
+    · simp [hv] at ha
     · cases ha
   · obtain ⟨a, ha, rfl, _⟩ := hs
     unfold failStep at ha
@@ -289,28 +438,14 @@ theorem Unbuf.step {s s' : St α} {o : Obs α} (l : Label) (h : Unbuf s)
     unfold Spool.restart
     split <;> exact ⟨rfl, ht⟩
 
-theorem Reachable.unbuf {input : List α} {s : St α} (h : Reachable .direct input s) : Unbuf s := by
+theorem Reachable.unbuf {v : Variant} {input : List α} {s : St α} (hv : v.buffered = false)
+    (h : Reachable v input s) : Unbuf s := by
   induction h with
   | init => exact ⟨rfl, fun r h => by cases h⟩
-  | step l _ hs ih => exact ih.step l hs
+  | step l _ hs ih => exact ih.step l hv hs
 
-/-- Right after `setState(COMPLETE)` (any variant): the job says COMPLETE with the full count. -/
-theorem Inv.at_writeStatus {v : Variant} {input : List α} {s : St α} (h : Inv v input s)
-    (hpc : s.pc = .writeStatus) :
-    s.present = true ∧ s.state = .complete ∧ s.count = input.length := by
-  obtain ⟨hl, hp, hf, hd⟩ := h
-  obtain ⟨todo, file, tail, buffer, present, state, count, statusFile, pc⟩ := s
-  dsimp only at hpc hl hf ⊢
-  subst hpc
-  simp only [PcFacts, Late] at hf
-  obtain ⟨hst, _, hcnt, htodo, _⟩ := hf
-  obtain ⟨hpr, hin⟩ := hl (by simp)
-  subst htodo
-  refine ⟨hpr, hst, ?_⟩
-  rw [hcnt, ← hin]; simp
-
-/-- Once the goroutine is past the status write (any variant), a COMPLETE job has its status
-    file on disk. -/
+/-- Once the goroutine is past the status write and the state change (any variant), a COMPLETE
+    job has its status file on disk. -/
 theorem Inv.final_status {v : Variant} {input : List α} {s : St α} (h : Inv v input s)
     (hpc : s.pc = .close ∨ s.pc = .done) (hc : s.state = .complete) :
     s.statusFile = some (some (.complete, s.count)) ∧ s.file = input ∧ s.tail = .clean := by
@@ -326,10 +461,12 @@ theorem Inv.final_status {v : Variant} {input : List α} {s : St α} (h : Inv v 
     simp [St.flushed] at hin
     simpa [hin] using he
 
-/-- The code as it is: the count never runs ahead of the file; it lags by at most one row while
-    the goroutine lives. -/
-theorem Inv.direct_count {input : List α} {s : St α} (h : Inv .direct input s) (hu : Unbuf s) :
+/-- An unbuffered writer (old or repaired order): the count never runs ahead of the file; it lags
+    by at most one row while the goroutine lives. -/
+theorem Inv.direct_count {v : Variant} {input : List α} {s : St α} (h : Inv v input s)
+    (hv : v.buffered = false) (hu : Unbuf s) :
     s.count ≤ s.file.length ∧ (s.pc ≠ .dead → s.file.length ≤ s.count + 1) := by
+  have hsafe := Variant.safe_of_unbuffered hv
   obtain ⟨hl, hp, hf, hd⟩ := h
   obtain ⟨todo, file, tail, buffer, present, state, count, statusFile, pc⟩ := s
   obtain ⟨hb, ht⟩ := hu
@@ -345,10 +482,47 @@ theorem Inv.direct_count {input : List α} {s : St α} (h : Inv .direct input s)
       simp [hf]
     · have hsf := hf.1 rfl
       obtain ⟨_, rfl, hfile⟩ := hd _ _ hsf
-      obtain ⟨rfl, rfl⟩ := hfile rfl
+      obtain ⟨rfl, rfl⟩ := hfile hsafe
       simp
   all_goals try simp at hf
   all_goals grind
+
+/-- In the window of the repaired order (status file written, state change still to come) the
+    job is RUNNING with the full count. -/
+theorem Inv.at_setComplete {v : Variant} {input : List α} {s : St α} (h : Inv v input s)
+    (hv : v.statusFirst = true) (hpc : s.pc = .setComplete) :
+    s.present = true ∧ s.state = .running ∧ s.count = input.length ∧
+    s.statusFile = some (some (.complete, input.length)) := by
+  obtain ⟨hl, hp, hf, hd⟩ := h
+  obtain ⟨todo, file, tail, buffer, present, state, count, statusFile, pc⟩ := s
+  dsimp only at hpc hl hf ⊢
+  subst hpc
+  simp only [PcFacts, Late, hv, if_true] at hf
+  obtain ⟨hst, ⟨hcnt, htodo, _⟩, hsf⟩ := hf
+  obtain ⟨hpr, hin⟩ := hl (by simp)
+  subst htodo
+  have hn : count = input.length := by rw [hcnt, ← hin]; simp
+  subst hn
+  exact ⟨hpr, hst, rfl, hsf⟩
+
+/-- The repaired order: the status file is written while the job does not (yet) say COMPLETE
+    only in ONE place — between `statusFile.Write` and `setState(COMPLETE)`. -/
+theorem Inv.written_not_complete {v : Variant} {input : List α} {s : St α} (h : Inv v input s)
+    (hv : v.statusFirst = true) {x : JobState × Nat} (hx : s.statusFile = some (some x))
+    (hc : s.state ≠ .complete) : s.pc = .setComplete := by
+  obtain ⟨hl, hp, hf, hd⟩ := h
+  obtain ⟨todo, file, tail, buffer, present, state, count, statusFile, pc⟩ := s
+  dsimp only at hc hx hl hp hf hd ⊢
+  subst hx
+  cases pc
+  all_goals simp only [PcFacts, Late, Final, Ended, hv, if_true] at hf
+  case setComplete => rfl
+  case dead =>
+    cases present
+    · exact absurd rfl ((hf.2 rfl).2.2 x)
+    · have hsf := hf.1 rfl
+      exact absurd (hd _ _ hsf).1 hc
+  all_goals (exfalso; revert hf; simp [hc])
 
 /-! ### runs of the goroutine -/
 
@@ -360,39 +534,64 @@ theorem Reachable.spool {v : Variant} {input : List α} {s s' : St α} (h : Reac
 def loopSt (todo file : List α) (count : Nat) : St α :=
   { todo := todo, file := file, state := .running, count := count, pc := .fetch }
 
-theorem Reachable.loop_direct {input : List α} : ∀ (rs file : List α) (n : Nat),
-    Reachable .direct input (loopSt rs file n) →
-    Reachable .direct input (loopSt [] (file ++ rs) (n + rs.length))
+theorem Reachable.loop_direct {v : Variant} (hv : v.buffered = false) {input : List α} :
+    ∀ (rs file : List α) (n : Nat),
+    Reachable v input (loopSt rs file n) →
+    Reachable v input (loopSt [] (file ++ rs) (n + rs.length))
   | [], file, n, h => by simpa using h
   | r :: rs, file, n, h => by
-    have h1 : Reachable .direct input
-        { loopSt rs file n with tail := .noNl r, pc := .newline r } := h.spool rfl
-    have h2 : Reachable .direct input { loopSt rs (file ++ [r]) n with pc := .addCount } :=
+    have h1 : Reachable v input
+        { loopSt rs file n with tail := .noNl r, pc := .newline r } :=
+      h.spool (by simp [spoolStep, loopSt, hv])
+    have h2 : Reachable v input { loopSt rs (file ++ [r]) n with pc := .addCount } :=
       h1.spool rfl
-    have h3 : Reachable .direct input (loopSt rs (file ++ [r]) (n + 1)) := h2.spool rfl
-    have h4 := Reachable.loop_direct rs (file ++ [r]) (n + 1) h3
+    have h3 : Reachable v input (loopSt rs (file ++ [r]) (n + 1)) := h2.spool rfl
+    have h4 := Reachable.loop_direct hv rs (file ++ [r]) (n + 1) h3
     simpa [List.append_assoc, Nat.add_assoc, Nat.add_comm 1] using h4
 
-/-- the state of the unbuffered goroutine once it has returned -/
+/-- the unbuffered goroutine after its loop, before `os.Create(statusPath)` -/
+def loopEndSt (input : List α) : St α :=
+  { todo := [], file := input, state := .running, count := input.length, pc := .create }
+
+theorem reachable_loopEnd {v : Variant} (hv : v.buffered = false) (input : List α) :
+    Reachable v input (loopEndSt input) := by
+  have h0 : Reachable v input (loopSt input [] 0) := Reachable.init.spool rfl
+  have h1 := Reachable.loop_direct hv input [] 0 h0
+  simp only [List.nil_append, Nat.zero_add] at h1
+  exact h1.spool (by cases v <;> first | rfl | simp at hv)
+
+/-- the state of the unbuffered goroutine once it has returned (old and repaired order alike) -/
 def doneSt (input : List α) : St α :=
   { todo := [], file := input, state := .complete, count := input.length,
     statusFile := some (some (.complete, input.length)), pc := .done }
 
-/-- the unbuffered goroutine right after `setState(COMPLETE)`: the status file exists, empty -/
+/-- THE ORDER BEFORE FIX 3895728: the unbuffered goroutine right after `setState(COMPLETE)`: the
+    status file exists, empty -/
 def unwrittenSt (input : List α) : St α :=
   { todo := [], file := input, state := .complete, count := input.length,
     statusFile := some none, pc := .writeStatus }
 
-theorem reachable_unwritten (input : List α) : Reachable .direct input (unwrittenSt input) := by
-  have h0 : Reachable .direct input (loopSt input [] 0) := Reachable.init.spool rfl
-  have h1 := Reachable.loop_direct input [] 0 h0
-  simp only [List.nil_append, Nat.zero_add] at h1
-  exact ((h1.spool rfl).spool rfl).spool rfl
+/-- the order before fix 3895728: the window is reachable for every input -/
+theorem reachable_unwritten (input : List α) : Reachable .directOld input (unwrittenSt input) :=
+  ((reachable_loopEnd rfl input).spool rfl).spool rfl
 
-/-- The unbuffered goroutine, left alone, runs to the end: all rows in the file, COMPLETE,
-    the status file written. -/
-theorem reachable_done (input : List α) : Reachable .direct input (doneSt input) :=
+/-- the order before fix 3895728: left alone, the goroutine runs to the same end -/
+theorem reachable_done_old (input : List α) : Reachable .directOld input (doneSt input) :=
   ((reachable_unwritten input).spool rfl).spool rfl
+
+/-- The repaired order: the unbuffered goroutine right after `statusFile.Write`, before
+    `setState(COMPLETE)`: the status file says COMPLETE, the job still says RUNNING. -/
+def windowSt (input : List α) : St α :=
+  { todo := [], file := input, state := .running, count := input.length,
+    statusFile := some (some (.complete, input.length)), pc := .setComplete }
+
+theorem reachable_window (input : List α) : Reachable .direct input (windowSt input) :=
+  ((reachable_loopEnd rfl input).spool rfl).spool rfl
+
+/-- The unbuffered goroutine (repaired order), left alone, runs to the end: all rows in the
+    file, the status file written, COMPLETE. -/
+theorem reachable_done (input : List α) : Reachable .direct input (doneSt input) :=
+  ((reachable_window input).spool rfl).spool rfl
 
 /-- the state at the loop head of a buffered goroutine that has not spilled -/
 def bufLoopSt (todo buffer : List α) (count : Nat) : St α :=
@@ -426,17 +625,27 @@ theorem Reachable.loop_buffered {input : List α} {cap : Option Nat} : ∀ (rs b
       (by simpa [Nat.add_assoc, Nat.add_comm 1] using hf) h2
     simpa [List.append_assoc, Nat.add_assoc, Nat.add_comm 1] using h3
 
-/-- the regressed goroutine right after `setState(COMPLETE)`, when nothing has spilled -/
-def servedNothingSt (input : List α) : St α :=
-  { todo := [], buffer := input, state := .complete, count := input.length,
-    statusFile := some none, pc := .writeStatus }
+/-- the regressed goroutine right after `statusFile.Write`, when nothing has spilled: the status
+    file says COMPLETE with the full count, the results file is empty -/
+def bufWindowSt (input : List α) : St α :=
+  { todo := [], buffer := input, state := .running, count := input.length,
+    statusFile := some (some (.complete, input.length)), pc := .setComplete }
 
-theorem reachable_servedNothing {cap : Option Nat} (input : List α) (hf : Fits cap input.length) :
-    Reachable (.flushAfter cap) input (servedNothingSt input) := by
+theorem reachable_bufWindow {cap : Option Nat} (input : List α) (hf : Fits cap input.length) :
+    Reachable (.flushAfter cap) input (bufWindowSt input) := by
   have h0 : Reachable (.flushAfter cap) input (bufLoopSt input [] 0) := Reachable.init.spool rfl
   have h1 := Reachable.loop_buffered input [] 0 (by simpa using hf) h0
   simp only [List.nil_append, Nat.zero_add] at h1
   exact ((h1.spool rfl).spool rfl).spool rfl
+
+/-- the regressed goroutine right after `setState(COMPLETE)`, when nothing has spilled -/
+def servedNothingSt (input : List α) : St α :=
+  { todo := [], buffer := input, state := .complete, count := input.length,
+    statusFile := some (some (.complete, input.length)), pc := .flushPost }
+
+theorem reachable_servedNothing {cap : Option Nat} (input : List α) (hf : Fits cap input.length) :
+    Reachable (.flushAfter cap) input (servedNothingSt input) :=
+  (reachable_bufWindow input hf).spool rfl
 
 /-! ### a job that fits in the buffer reaches the file only at the deferred flush -/
 
@@ -582,5 +791,45 @@ theorem step_status {v : Variant} {l : Label} {s s' : St α} {st : JobState} {n 
     split at h
     · split at h <;> cases h
     · cases h
+
+/-- what a step can answer: nothing, or `Status` / `Stream` of the state it started from -/
+theorem step_obs {v : Variant} {l : Label} {s s' : St α} {o : Obs α}
+    (h : step v l s = some (s', o)) : o = .silent ∨ o = getStatus s ∨ o = stream s := by
+  cases l <;> simp only [Spool.step, Option.map_eq_some_iff, Prod.mk.injEq, Option.some.injEq] at h
+  · obtain ⟨_, _, _, h⟩ := h; exact .inl h.symm
+  · obtain ⟨_, _, _, h⟩ := h; exact .inl h.symm
+  · obtain ⟨_, _, _, h⟩ := h; exact .inl h.symm
+  · exact .inr (.inl h.2.symm)
+  · exact .inr (.inr h.2.symm)
+  · exact .inl h.2.symm
+
+/-- The repaired order: a schedule that starts in a reachable state where the job is COMPLETE
+    ends in one, and each of its observations was made by one step from such a state. -/
+theorem run_complete {v : Variant} {input : List α} (hv : v.statusFirst = true) :
+    ∀ (ls : List Label) (s0 s : St α) (os : List (Obs α)), Reachable v input s0 →
+    s0.state = .complete → run v ls s0 = some (s, os) →
+    Reachable v input s ∧ s.state = .complete ∧
+      ∀ o ∈ os, ∃ l s1 s1', Reachable v input s1 ∧ s1.state = .complete ∧
+        step v l s1 = some (s1', o)
+  | [], s0, s, os, h0, hc, hr => by
+    simp only [run, Option.some.injEq, Prod.mk.injEq] at hr
+    obtain ⟨rfl, rfl⟩ := hr
+    exact ⟨h0, hc, fun o ho => by cases ho⟩
+  | l :: ls, s0, s, os, h0, hc, hr => by
+    simp only [run] at hr
+    split at hr
+    · cases hr
+    · rename_i s1 o1 hstep
+      split at hr
+      · cases hr
+      · rename_i s2 os2 hrun
+        simp only [Option.some.injEq, Prod.mk.injEq] at hr
+        obtain ⟨rfl, rfl⟩ := hr
+        have ih := run_complete hv ls s1 s2 os2 (h0.step l hstep)
+          (h0.inv.complete_stable hv hc hstep) hrun
+        refine ⟨ih.1, ih.2.1, fun o ho => ?_⟩
+        rcases List.mem_cons.mp ho with rfl | ho
+        · exact ⟨l, s0, s1, h0, hc, hstep⟩
+        · exact ih.2.2 o ho
 
 end Grip.C11.Spool
